@@ -2,6 +2,7 @@
 package shipx
 
 import (
+	"reflect"
 	"errors"
 	"fmt"
 	"strings"
@@ -271,6 +272,22 @@ type armed struct {
 	delivered bool
 	stoppedAt time.Duration
 	armedAt   time.Duration
+	kind      uint64 // ship.timeoutTimerType: 0 wait for ready, 1 send prolongation request, 2 reply to the own prolongation request
+	answered  bool   // kind 2: the peer's reply (hello pending with a waiting value) was handed to the connection after this timer was armed
+}
+
+// isProlongationReply: a connectionHello with phase pending and a waiting value and without a prolongation request -
+// the reply SHIP 13.4.4.1.3 defines for a prolongation request
+func isProlongationReply(m []byte) bool {
+	s := string(m)
+	return strings.Contains(s, `"connectionHello"`) && strings.Contains(s, `"phase":"pending"`) && strings.Contains(s, `"waiting"`) && !strings.Contains(s, `"prolongationRequest"`)
+}
+
+// Answered: the latest timer of the connection is still pending although the reply it waited for has arrived
+// (ghost state the delivery check depends on: it belongs into the state key of a search).
+func (m *TimerMonitor) Answered(conn any) bool {
+	a := m.latest[conn]
+	return a != nil && a.answered && !a.stopped && !a.delivered
 }
 
 // InstallTimerMonitor registers the monitor on the trace hooks of the current execution.
@@ -286,7 +303,11 @@ func InstallTimerMonitor() *TimerMonitor {
 			m.Seen = true
 			m.Arms++
 			d, _ := args[2].(time.Duration)
-			m.latest[args[0]] = &armed{deadline: simrt.Elapsed() + d, armedAt: simrt.Elapsed()}
+			a := &armed{deadline: simrt.Elapsed() + d, armedAt: simrt.Elapsed()}
+			if v := reflect.ValueOf(args[1]); v.CanUint() {
+				a.kind = v.Uint()
+			}
+			m.latest[args[0]] = a
 		case "ship.(*ShipConnection).stopHandshakeTimer":
 			if len(args) < 1 {
 				return
@@ -303,6 +324,15 @@ func InstallTimerMonitor() *TimerMonitor {
 			}
 			to, _ := args[1].(bool)
 			if !to {
+				// the consequence C14 draws: the reply to the own prolongation request arrived, so the timer that waited for it
+				// has done its duty - whatever the connection does with the reply, that timer must not tear it down later
+				if len(args) >= 3 {
+					if msg, ok := args[2].([]byte); ok && isProlongationReply(msg) {
+						if a := m.latest[args[0]]; a != nil && a.kind == 2 && !a.delivered && !a.stopped && simrt.Elapsed() < a.deadline {
+							a.answered = true
+						}
+					}
+				}
 				return
 			}
 			m.Deliveries++
@@ -313,6 +343,8 @@ func InstallTimerMonitor() *TimerMonitor {
 				simrt.Fail("C14|timeout-without-armed-timer", "a handshake timeout was delivered at %v although no timer was armed", now)
 			case a.stopped && a.stoppedAt < now:
 				simrt.Fail("C14|stopped-timer-fired", "a handshake timeout was delivered at %v although the latest timer (armed %v, due %v) was stopped at %v", now, a.armedAt, a.deadline, a.stoppedAt)
+			case a.answered:
+				simrt.Fail("C14|answered-timer-fired", "a handshake timeout was delivered at %v by the timer that waited for the reply to the own prolongation request (armed %v, due %v) although that reply had arrived in time: the connection progressed and is torn down by the timeout of the earlier step", now, a.armedAt, a.deadline)
 			case a.delivered && now > a.deadline:
 				simrt.Fail("C14|replaced-timer-fired", "a handshake timeout was delivered at %v after the latest armed timer (armed %v, due %v) had already delivered: an earlier, replaced timer fired", now, a.armedAt, a.deadline)
 			case a.delivered:
